@@ -5,6 +5,10 @@ R20.1  who may create: every file-creating / -mutating libc call in w2c2/*.c is 
        basename() copy of the output path (optionally with its extension replaced by ".h"), from the
        "%c%010u.c" sprintf whose prefix flows from the literals 's'/'d', or from the literal "datasegments";
        inputs are opened read-only
+R20.5  the names handed to the header and implementation writers are functions of the LAST component of the output path only:
+       wasmCWriteModule's string manipulation is partially evaluated (strcpy/strrchr/basename/memmove/strlen modelled on
+       character arrays) for a family of paths with dotted directories, missing extensions and several dots; the
+       implementation name must be the last component and the header name that component with its extension replaced by .h
 R20.2  all those names are separator-free and chdir(dirname(output)) dominates the writer and the cleaner
 R20.3  who may delete: remove() is called only by the cleaner, which runs only under the clean flag
 R20.4  the delete filter equals the naming scheme: the set of names reaching remove() (computed by partial
@@ -478,6 +482,113 @@ def _example(cube):
     return ''.join(chr(min(s)) if s else '?' for s in cube)
 
 
+# ---- R20.5 ----------------------------------------------------------------------------------------
+
+PATH_FAMILY = ['out.c', 'out', 'dir/out.c', 'dir/out', 'a.b/out', 'a.b/out.c', 'a.b/c.d/e', './x.y/z.w.c', '/abs/p.q/r', 'rel/../q.r/s.t',
+               'name.with.dots.c', 'd/.hidden', 'v1.2/lib']
+
+
+def string_leafs():
+    from ..emit import _cstr
+    from ..pe import Ptr
+
+    def put(interp, d, text):
+        for i, ch in enumerate(text):
+            interp.store(d.c, d.k + i, ord(ch))
+        interp.store(d.c, d.k + len(text), 0)
+
+    def strcpy(interp, args, node):
+        s_ = _cstr(interp, args[1])
+        if not isinstance(s_, str) or not isinstance(args[0], Ptr):
+            raise pe.PEError('strcpy of a non-concrete string')
+        put(interp, args[0], s_)
+        return args[0]
+
+    def strrchr(interp, args, node):
+        s_ = _cstr(interp, args[0])
+        if not isinstance(s_, str):
+            raise pe.PEError('strrchr of a non-concrete string')
+        i = s_.rfind(chr(args[1] & 0xff))
+        return 0 if i < 0 else Ptr(args[0].c, args[0].k + i)
+
+    def basename(interp, args, node):
+        p = args[0]
+        s_ = _cstr(interp, p)
+        if not isinstance(s_, str):
+            raise pe.PEError('basename of a non-concrete string')
+        if s_ == '':
+            return '.'
+        t = s_.rstrip('/')
+        if t == '':
+            return '/'
+        if len(t) != len(s_):
+            interp.store(p.c, p.k + len(t), 0)       # POSIX basename may cut trailing separators
+        i = t.rfind('/')
+        return Ptr(p.c, p.k + i + 1) if isinstance(p, Ptr) else t[i + 1:]
+
+    def memmove(interp, args, node):
+        d, s_, n = args
+        if not isinstance(n, int):
+            raise pe.PEError('memmove of a symbolic length')
+        src = [interp.load(s_.c, s_.k + i) if isinstance(s_, Ptr) else (ord(s_[i]) if i < len(s_) else 0) for i in range(n)]
+        for i, v in enumerate(src):
+            interp.store(d.c, d.k + i, v)
+        return d
+
+    def strlen(interp, args, node):
+        s_ = _cstr(interp, args[0])
+        if not isinstance(s_, str):
+            raise pe.PEError('strlen of a non-concrete string')
+        return len(s_)
+
+    def strcat(interp, args, node):
+        a, b = _cstr(interp, args[0]), _cstr(interp, args[1])
+        put(interp, args[0], a + b)
+        return args[0]
+    return {'strcpy': strcpy, '__builtin_strcpy': strcpy, 'strrchr': strrchr, '__builtin_strrchr': strrchr, 'basename': basename,
+            '__xpg_basename': basename, '__gnu_basename': basename, 'memmove': memmove, '__builtin_memmove': memmove, 'memcpy': memmove,
+            'strlen': strlen, '__builtin_strlen': strlen, 'strcat': strcat}
+
+
+def check_writer_names(chk, c_tu):
+    from ..emit import _cstr
+    chk.require('wasmCWriteModule' in c_tu.functions, 'anchor wasmCWriteModule not found')
+    chk.fn('wasmCWriteModule')
+    for path in PATH_FAMILY:
+        got = {}
+
+        def header(interp, args, node, got=got):
+            got['header'] = _cstr(interp, args[2])
+            return 1
+
+        def impl(interp, args, node, got=got):
+            got['output'] = _cstr(interp, args[2])
+            got['include'] = _cstr(interp, args[3])
+            return 1
+        leafs = string_leafs()
+        leafs.update({'wasmCWriteModuleHeader': header, 'wasmCWriteModuleImplementation': impl})
+        it = pe.Interp([c_tu], leafs)
+
+        def setup(path=path):
+            opts = {'outputPath': path, 'threadCount': 1, 'functionsPerFile': 0, 'pretty': 0, 'debug': 0, 'multipleModules': 0, 'dataSegmentMode': 0}
+            empty = {'length': 0, 'capacity': 0, 'functionIDs': 0}
+            return ('wasmCWriteModule', [pe.unk('module'), 'mod', opts, empty, dict(empty)], {})
+        paths = [p for p in it.explore(setup) if not p.aborted]
+        site = 'wasmCWriteModule:names'
+        if not chk.expect(len(paths) == 1 and paths[0].ret == 1 and set(got) == {'header', 'output', 'include'}, 'R20.5', 'evaluated[%s]' % path,
+                          'wasmCWriteModule(%r): %d paths, writers called with %r' % (path, len(paths), got), site):
+            continue
+        last = path.rstrip('/').rsplit('/', 1)[-1]
+        stem = last[:last.rindex('.')] if '.' in last else last
+        want_header = stem + '.h'
+        chk.expect(got['output'] == last, 'R20.5', 'output-name[%s]' % path,
+                   'for output path %r the implementation is written to %r in the output directory; expected the last component %r'
+                   % (path, got['output'], last), site)
+        chk.expect(got['header'] == want_header and got['include'] == want_header, 'R20.5', 'header-name[%s]' % path,
+                   'for output path %r the header is written to %r (included as %r); expected %r - the last component with its extension replaced: '
+                   'anything else names a file that is not one of the translator\'s outputs' % (path, got['header'], got['include'], want_header), site)
+
+
 def run(chk):
     chk.explanation = (
         'Who-may-create / who-may-delete rules over all fourteen translator units with interprocedural string provenance for every '
@@ -496,8 +607,10 @@ def run(chk):
     check_creators(chk, tus, prov)
     check_main_order(chk, main_tu, prov)
     check_filter(chk, main_tu, c_tu, filename_length_macro(c_tu))
+    check_writer_names(chk, c_tu)
     chk.floor('R20.1', 5)
     chk.floor('R20.2', 6)
     chk.floor('R20.3', 4)
     chk.floor('R20.4', 24)
+    chk.floor('R20.5', 30)
     chk.exhaustive = True
